@@ -227,7 +227,7 @@ impl World {
         let mut txs = Vec::new();
         for t in 0..2 {
             let (tx, rx) = watch::channel(Some(IceSocketWrapper::Udp(net.sock[t].clone())));
-            let conn = IceConn::new(rx, net.peer_addr[t], None);
+            let conn = IceConn::new(rx, net.peer_addr[t], Some(TNAME[t].to_string())); // label = `inst` of the H7 gate events
             let tr = Arc::new(RtpTransport::new(conn.clone(), req[t]));
             conn.set_rtp_receiver(tr.clone());
             trs.push(tr);
@@ -394,6 +394,9 @@ fn protect_rtcp(s: &mut SrtpSession, pk: &[RtcpPacket]) -> Vec<u8> {
     raw
 }
 
+/// A key generation no scenario ever installs (forged variant "keys of another generation").
+const OTHER_GEN: usize = 9;
+
 /// Inbound datagram of the requested authenticity class; `how` names the concrete variant.
 fn inbound(w: &mut World, rtcp: bool, auth: &str, step: usize, rng: &mut Rng) -> (Vec<u8>, String) {
     let cur = w.gen_[0].max(1); // before installation the peer already uses the keys that will be installed
@@ -469,14 +472,14 @@ fn inbound(w: &mut World, rtcp: bool, auth: &str, step: usize, rng: &mut Rng) ->
                 let pk = rtcp_packets(rtcp_ssrc, rng);
                 match variant {
                     2 => protect_rtcp(&mut session(profile, keying(kseed, 7, 7, 7), keying(kseed, 7, 7, 6)), &pk),
-                    3 => protect_rtcp(w.peer_session(cur + 1), &pk), // keys of another generation
+                    3 => protect_rtcp(w.peer_session(OTHER_GEN), &pk), // keys of another generation
                     _ => protect_rtcp(w.peer_session(cur), &pk),
                 }
             } else {
                 let p = clear_rtp(rng);
                 match variant {
                     2 => protect_rtp(&mut session(profile, keying(kseed, 7, 7, 7), keying(kseed, 7, 7, 6)), &p),
-                    3 => protect_rtp(w.peer_session(cur + 1), &p),
+                    3 => protect_rtp(w.peer_session(OTHER_GEN), &p),
                     _ => protect_rtp(w.peer_session(cur), &p),
                 }
             };
@@ -1341,6 +1344,156 @@ fn run_edge(net: &mut Net, baton: &Arc<Baton>, case: &Value, idx: usize, seed: u
     }
 }
 
+// ------------------------------------------------------------------------ free-running stress (trace)
+
+fn id_of(ssrc: u32, seq: u32) -> String {
+    format!("{ssrc:08x}:{seq}")
+}
+
+/// One program (operations of the three tasks) run `reps` times with the tasks racing freely; every run appends its
+/// events to the trace: reset, inject*, then - interleaved as they happened - keys_begin and the H7 gate events,
+/// then wire* and deliver*.
+fn run_stress(net: &mut Net, handle: &tokio::runtime::Handle, case: &Value, idx: usize, rep_i: usize, seed: u64, trace: &mut NdjsonOut, stats: &mut Stats) {
+    let req = [case["rx"].as_bool().unwrap(), case["ry"].as_bool().unwrap()];
+    let prog: Vec<Vec<String>> = ["snd", "rcv", "ctl"]
+        .iter()
+        .map(|k| case[*k].as_array().map(|a| a.iter().map(|v| v.as_str().unwrap().to_string()).collect()).unwrap_or_default())
+        .collect();
+    let mut h: u64 = seed ^ 0x9E37_79B9_7F4A_7C15 ^ (rep_i as u64) << 48 ^ (idx as u64) << 20;
+    for t in &prog {
+        for op in t {
+            for b in op.bytes() {
+                h = (h ^ b as u64).wrapping_mul(0x100000001b3);
+            }
+        }
+        h = h.wrapping_mul(31);
+    }
+    let mut rng = Rng(h);
+    let profile = PROFILES[rng.below(3) as usize];
+    let kseed = rng.next();
+    let nonce = (idx * 7 + rep_i) as u16;
+    net.renew_peers();
+    let mut w = World::new(net, req, profile, kseed, nonce, &mut rng);
+    rustrtc::verif::set_enabled(true);
+    let _ = rustrtc::verif::take_events();
+    trace.push(&json!({"ev": "reset", "rx": req[0], "ry": req[1], "scenario": idx, "rep": rep_i}));
+    // prepare: receives first (their valid packets use the keys of the first generation), then control, then sends
+    let mut acts: [Vec<(Act, String, u64)>; 3] = [Vec::new(), Vec::new(), Vec::new()];
+    let mut k = 0usize;
+    let mut all_ops: Vec<String> = Vec::new();
+    for t in [1usize, 2, 0] {
+        for op in &prog[t] {
+            let in_seq = w.in_seq;
+            let (act, _how) = prepare(op, &mut w, k, &mut rng);
+            if op.starts_with('R') {
+                let cls = match op.as_bytes()[1] {
+                    b'c' => "clear",
+                    b'v' => "valid",
+                    _ => "forged",
+                };
+                let id = if op.ends_with('C') { id_of(ssrc_rtcp_in(nonce, k), 0) } else { id_of(ssrc_in(nonce), in_seq as u32) };
+                trace.push(&json!({"ev": "inject", "id": id, "cls": cls, "op": op}));
+            }
+            acts[t].push((act, op.clone(), rng.below(150)));
+            all_ops.push(op.clone());
+            k += 1;
+        }
+    }
+    // race
+    let barrier = std::sync::Barrier::new(3);
+    let (tr, conn, peer_addr) = (w.tr.clone(), w.conn[0].clone(), net.peer_addr[0]);
+    let panics = parking_lot::Mutex::new(Vec::<String>::new());
+    std::thread::scope(|sc| {
+        for (t, list) in acts.into_iter().enumerate() {
+            let (tr, conn, barrier, panics, handle) = (tr.clone(), conn.clone(), &barrier, &panics, handle.clone());
+            sc.spawn(move || {
+                let mut mbuf = Vec::new();
+                barrier.wait();
+                for (act, _op, spin) in list {
+                    let t0 = std::time::Instant::now();
+                    while (t0.elapsed().as_micros() as u64) < spin {
+                        std::hint::spin_loop();
+                    }
+                    if let Act::Keys(tt, _) = &act {
+                        rustrtc::verif::emit("harness", TNAME[*tt], "keys_begin", json!({}));
+                    }
+                    let mb = &mut mbuf;
+                    let (tr, conn) = (&tr, &conn);
+                    if let Err(m) = handle.block_on(catch_async(async move {
+                        let _ = exec(act, tr, conn, peer_addr, mb).await;
+                    })) {
+                        panics.lock().push(format!("task {t}: {m}"));
+                    }
+                }
+            });
+        }
+    });
+    // the interleaved part of the log
+    for e in rustrtc::verif::take_events() {
+        match e["ev"].as_str() {
+            Some("keys_begin") => trace.push(&json!({"ev": "keys_begin", "inst": e["inst"]})),
+            Some("gate") => trace.push(&json!({
+                "ev": "gate", "inst": e["inst"], "op": e["op"], "req": e["required"], "has": e["has_session"], "out": e["outcome"],
+                "id": id_of(e["ssrc"].as_u64().unwrap_or(0) as u32, e["pkt_seq"].as_u64().unwrap_or(0) as u32),
+            })),
+            _ => {}
+        }
+        stats.steps += 1;
+    }
+    rustrtc::verif::set_enabled(false);
+    for m in panics.into_inner() {
+        trace.push(&json!({"ev": "panic", "what": m}));
+    }
+    // what reached the wires and the sinks
+    let opsr: Vec<&str> = all_ops.iter().map(|s| s.as_str()).collect();
+    for t in 0..2 {
+        for d in net.capture(t) {
+            if let Some((n, _)) = wire_identity(&d) {
+                if n != nonce {
+                    stats.stale += 1;
+                    continue;
+                }
+            }
+            let (cls, _detail) = classify(&mut w, t, &d);
+            stats.datagrams += 1;
+            let is_rtcp = d.len() >= 2 && (192..=223).contains(&d[1]);
+            let id = if is_rtcp && d.len() >= 8 {
+                id_of(u32::from_be_bytes(d[4..8].try_into().unwrap()), 0)
+            } else if d.len() >= 12 {
+                id_of(u32::from_be_bytes(d[8..12].try_into().unwrap()), u16::from_be_bytes([d[2], d[3]]) as u32)
+            } else {
+                "short".into()
+            };
+            trace.push(&json!({"ev": "wire", "inst": TNAME[t], "cls": cls.to_string(), "id": id, "rtcp": is_rtcp}));
+        }
+    }
+    let _ = opsr;
+    while let Ok((p, _)) = w.lst_rx.try_recv() {
+        trace.push(&json!({"ev": "deliver", "sink": "l", "id": id_of(p.header.ssrc, p.header.sequence_number as u32)}));
+        stats.deliveries += 1;
+    }
+    while let Ok((p, _)) = w.prov_rx.try_recv() {
+        trace.push(&json!({"ev": "deliver", "sink": "l", "id": id_of(p.header.ssrc, p.header.sequence_number as u32)}));
+        stats.deliveries += 1;
+    }
+    while let Ok(pk) = w.rtcp_rx.try_recv() {
+        if let Some(s) = pk.iter().find_map(rtcp_sender_ssrc) {
+            trace.push(&json!({"ev": "deliver", "sink": "r", "id": id_of(s, 0)}));
+            stats.deliveries += 1;
+        }
+    }
+    for p in std::mem::take(&mut *w.obs[0].ingress.lock()) {
+        trace.push(&json!({"ev": "deliver", "sink": "o", "id": id_of(p.header.ssrc, p.header.sequence_number as u32)}));
+        stats.deliveries += 1;
+    }
+    for t in 0..2 {
+        w.obs[t].egress.lock().clear();
+        w.tr[t].clear_bridge_rewrite();
+        w.tr[t].clear_observers();
+    }
+    stats.behaviours += 1;
+}
+
 static LAST_PANIC_AT: parking_lot::Mutex<String> = parking_lot::Mutex::new(String::new());
 
 #[derive(Default)]
@@ -1381,8 +1534,8 @@ async fn catch_async<F: std::future::Future<Output = ()>>(f: F) -> Result<(), St
 
 fn main() {
     let args: Vec<String> = std::env::args().collect();
-    if args.len() < 4 || !["replay", "sched"].contains(&args[1].as_str()) {
-        eprintln!("usage: gate replay|sched <behaviours-or-edges.ndjson> <out.ndjson> [i/n]");
+    if args.len() < 4 || !["replay", "sched", "stress"].contains(&args[1].as_str()) {
+        eprintln!("usage: gate replay|sched|stress <behaviours-or-edges-or-programs.ndjson> <out.ndjson> [i/n]");
         std::process::exit(2);
     }
     let (shard, nshards) = match args.get(4) {
@@ -1399,6 +1552,26 @@ fn main() {
         }
     }));
     let seed = Rng::from_env().0;
+    if args[1] == "stress" {
+        let rt = tokio::runtime::Builder::new_multi_thread().worker_threads(1).enable_all().build().unwrap();
+        let mut net = rt.block_on(Net::new());
+        let mut out = NdjsonOut::create(&args[3]);
+        let mut stats = Stats::default();
+        let reps: usize = std::env::var("GATE_STRESS_REPS").ok().and_then(|s| s.parse().ok()).unwrap_or(3);
+        let _enter = rt.enter();
+        for (i, case) in read_ndjson(&args[2]).iter().enumerate() {
+            if i % nshards != shard {
+                continue;
+            }
+            for r in 0..reps {
+                run_stress(&mut net, rt.handle(), case, i, r, seed, &mut out, &mut stats);
+            }
+        }
+        out.finish();
+        eprintln!("{}", json!({"type": "summary", "behaviours": stats.behaviours, "steps": stats.steps, "datagrams": stats.datagrams,
+                              "deliveries": stats.deliveries, "stale": stats.stale, "foreign": net.foreign}));
+        std::process::exit(0);
+    }
     if args[1] == "sched" {
         // the reactor lives on the runtime's own worker; the three task threads and the controller block_on it
         let rt = tokio::runtime::Builder::new_multi_thread().worker_threads(1).enable_all().build().unwrap();
